@@ -47,6 +47,9 @@ func (n *NotifSpec) core() *corebgp.Notification {
 type PluginSpec struct {
 	Caps    []wire.Cap `json:"caps,omitempty"`
 	NoNonce bool       `json:"no_nonce,omitempty"`
+	// BigCapsFirst: the first that many GetCapabilities calls return a list that cannot be
+	// represented in an OPEN (one 256-octet value); later calls behave normally
+	BigCapsFirst int `json:"big_caps_first,omitempty"`
 	// SharedCaps: the plugin builds its capability list once, in a slice with spare
 	// capacity, and returns that very slice from every call (no nonce is appended)
 	SharedCaps     bool             `json:"shared_caps,omitempty"`
@@ -602,6 +605,10 @@ func (p *plugin) GetCapabilities(pc corebgp.PeerConfig) []corebgp.Capability {
 	p.w.Rec.add(Ev{K: "caps+", Peer: pc.RemoteAddress.String(), N: n})
 	p.sleep("caps")
 	var out []corebgp.Capability
+	if n <= p.ps.spec.Plugin.BigCapsFirst {
+		p.w.Rec.add(Ev{K: "caps-", Peer: pc.RemoteAddress.String(), N: n})
+		return []corebgp.Capability{{Code: 200, Value: make([]byte, 256)}}
+	}
 	if p.ps.spec.Plugin.SharedCaps {
 		p.ps.mu.Lock()
 		if p.ps.shared == nil {
